@@ -488,9 +488,39 @@ def replay_witness(unit_name, case, ob):
         bad = [q for q in reqs if q > c]
         return {"reproduced": bool(bad), "inputs": dict(num_randoms=n, chunksize=c, probe_size=ps),
                 "observed_requests": reqs, "expected": f"every request <= chunksize={c}"}
-    if unit_name in ("DataChunkReader.__next__", "RandomReader._get_next_chunk") or unit_name.endswith("_get_next_chunk"):
-        return _replay_pass(unit_name, case, w)
-    return {"reproduced": False, "note": "no concrete replay harness for this obligation"}
+    if unit_name in ("DataChunkReader.__next__", "RandomReader._get_next_chunk") or (unit_name.endswith("_get_next_chunk") and not unit_name.startswith("ParquetReader")):
+        r = _replay_pass(unit_name, case, w)
+        if r.get("reproduced"):
+            return r
+    fails = [(n_, d) for n_, ok, d in _battery(True) if not ok]
+    return {"reproduced": bool(fails), "failed_cases": [f"{n_}: {d}" for n_, d in fails][:6],
+            "note": "every reader of the real library over real sources (data frame, HDF5, FITS, Parquet with uniform / ragged row groups, random generator), two passes each"}
+
+
+_BAT = {}
+
+
+def _battery(quick):
+    if quick not in _BAT:
+        import warnings
+        from bounded import c18_readers
+        with warnings.catch_warnings():
+            warnings.simplefilter("ignore")
+            _BAT[quick] = c18_readers.battery(quick)
+    return _BAT[quick]
+
+
+def bounded(opts):
+    import time
+    t0 = time.time()
+    quick = opts.get("tier", "quick") == "quick"
+    res = _battery(quick)
+    fails = [(n_, d) for n_, ok, d in res if not ok]
+    return dict(kind="bounded", bound="real library: DataFrameReader, HDFReader, FitsReader, ParquetReader (row groups of 50; ragged layouts [100,50,100,30], [40,100,60,80], "
+                "[1,99,7,173]) and RandomReader for 1, 7, 100, 280 records (thorough: + 2, 64, 1000) and chunk sizes 1, 3, 80, 100, 1000 (thorough: + 2, 7, 40, 250, 5000); "
+                "two passes each: chunk lengths are the input cut at multiples of the chunk size, records in order and once, every Parquet row group requested once per pass",
+                evaluations=len(res), distinct_nontrivial=len(res), violations=[dict(id=f"bounded:{n_}", detail=d) for n_, d in fails][:12],
+                samples=[n_ for n_, _, _ in res[:3]], wall_s=round(time.time() - t0, 2), note="real library; labelled bounded, not counted as proved")
 
 
 def _replay_pass(unit_name, case, w):
